@@ -40,7 +40,7 @@ Evals(endl) == {j \in (endl - Trace[endl].i + 1)..(endl - 1) : Trace[j].ev = "Ev
 One == Lit("1.0")
 Near(prec) == FMul(prec, Lit("1e-9"))
 
-KnownEvent == E.ev \in {"Call", "Eval", "Gap", "End", "Twin"}
+KnownEvent == E.ev \in {"Call", "Eval", "Gap", "End", "Twin", "Model"}
 
 (* ---------------- the recorded evaluations are steps of FluxSolver ---------------- *)
 Step_Seed == (IsEval(E) /\ E.k = 1) =>
@@ -93,6 +93,8 @@ Cl_Homogeneous == (E.ev = "Twin" /\ Pre.outcome = "return" /\ Pre.hasL /\ FLt(Pr
 (* ------------------------------- clause of C10 ----------------------------------- *)
 Cl_Terminates == (E.ev = "End") => (E.outcome \in {"return", "raise"} /\ E.n <= E.budget)
 Cl_TwinTerminates == (E.ev = "Twin") => E.outcome \in {"return", "raise"}
+\* Model{kind, N, outcome, n, budget}: a whole process / curve model run under the evaluation counter
+Cl_ModelTerminates == (E.ev = "Model") => (E.outcome \in {"return", "raise"} /\ E.n <= E.budget)
 
 (* ------------------------------ reference semantics ------------------------------ *)
 Variants(model) == IF model = "NRTL" THEN {"NRTL"} ELSE {"UNIQUAC", "UNIQUAC_AsImplemented"}
